@@ -103,6 +103,17 @@ def call_backend(backends, case: dict, wrap):
             return _variadic(backends, "stack", arrs, axis, is_xr)
         return getattr(backends, op)(*arrs)
     arrs = [wrap(a, case.get("dt", "f8")) for a in case["args"]]
+    if k in ("multik", "batchedk"):
+        kw = {"dim": f"d{axis}"} if is_xr else {"axis": axis}          # the keyword each backend documents
+        f = getattr(backends, op)
+        if k == "multik":
+            return f(*arrs, **kw)
+        inner, pos = [], 0
+        for n in case["parts"]:
+            b = arrs[pos:pos + n]
+            pos += n
+            inner.append(b[0] if n == 1 else f(*b, **kw))
+        return f(*inner, **kw)
     if k == "sbin":
         num, den = case["idx"]
         kind, left = case["parts"]
